@@ -700,25 +700,58 @@ func (c *Ctx) ruleC10MacroRemoved() {
 		}
 	}
 	if cp := c.fn("core", "JApiCore.collectPaths"); cp != nil {
-		skips := false
-		ast.Inspect(cp.Decl.Body, func(n ast.Node) bool {
-			if cc, ok := n.(*ast.CaseClause); ok {
-				for _, e := range cc.List {
-					if constObj(pk, e) == macroConst {
-						for _, s := range cc.Body {
-							if b, ok := s.(*ast.BranchStmt); ok && b.Tok == token.CONTINUE {
-								skips = true
-							}
-						}
-					}
+		// every call that hands an element of the list (or its children) to the receiver's collectors is reached only
+		// with "<element>.Type() != directive.Macro" established, whatever the form of the test (case, if, continue)
+		cf := buildCFG(cp.Decl.Body)
+		typeM := c.P.LookupFunc("directive", "Directive.Type")
+		n, bad := 0, 0
+		ast.Inspect(cp.Decl.Body, func(nd ast.Node) bool {
+			call, ok := nd.(*ast.CallExpr)
+			if !ok {
+				return true
+			}
+			cal := callee(cp.Pkg, call)
+			if cal == nil || !c.P.IsLibPkg(cal.Pkg()) || cal.Pkg() != cp.Pkg.Types || len(call.Args) != 1 {
+				return true
+			}
+			elem := ast.Unparen(call.Args[0])
+			if sel, ok := elem.(*ast.SelectorExpr); ok && sel.Sel.Name == "Children" {
+				elem = ast.Unparen(sel.X)
+			}
+			want := exprString(unalias(cp, elem))
+			n++
+			notMacro := func(cond ast.Expr, trueEdge bool) bool {
+				be, ok := ast.Unparen(cond).(*ast.BinaryExpr)
+				if !ok || (be.Op != token.EQL && be.Op != token.NEQ) {
+					return false
 				}
+				x, y := be.X, be.Y
+				if constObj(pk, x) == macroConst {
+					x, y = y, x
+				}
+				if constObj(pk, y) != macroConst || macroConst == nil {
+					return false
+				}
+				tc, ok := unalias(cp, x).(*ast.CallExpr)
+				if !ok || callee(cp.Pkg, tc) != typeM || typeM == nil {
+					return false
+				}
+				recv, ok := ast.Unparen(tc.Fun).(*ast.SelectorExpr)
+				if !ok || exprString(unalias(cp, recv.X)) != want {
+					return false
+				}
+				return (be.Op == token.NEQ) == trueEdge
+			}
+			if !cf.establishedAt(call, notMacro, nil) {
+				bad++
+				r.Bad("C10-MACRO-CONTRIBUTES-NOTHING", "collectPaths skips MACRO", "the path collector hands "+exprString(call.Args[0])+" to "+cal.Name()+" without having established that it is not a MACRO definition: it descends into MACRO definitions", c.pos(call.Pos()))
 			}
 			return true
 		})
-		if skips {
-			r.Ok("C10-MACRO-CONTRIBUTES-NOTHING", "collectPaths skips MACRO", "case directive.Macro: continue", c.pos(cp.Decl.Pos()))
-		} else {
-			r.Bad("C10-MACRO-CONTRIBUTES-NOTHING", "collectPaths skips MACRO", "the path collector descends into MACRO definitions", c.pos(cp.Decl.Pos()))
+		if n == 0 {
+			r.Bad("C10-MACRO-CONTRIBUTES-NOTHING", "collectPaths skips MACRO", "no collector call found in the path collector", c.pos(cp.Decl.Pos()))
+		} else if bad == 0 {
+			r.Ok("C10-MACRO-CONTRIBUTES-NOTHING", "collectPaths skips MACRO", fmt.Sprintf("%d collector calls, each reached only when the element is not a MACRO", n), c.pos(cp.Decl.Pos()))
 		}
 	}
 }
